@@ -82,11 +82,15 @@ def blurring_rule(ctx, p, K):
     r = [(nm, g, n) for nm, g, n in S.raises if nm.split(".")[-1] == "MaskException"]
     ok = False
     det = ""
+    from ..forms import cond_equiv
+    in_frame = AND(CMP(ZERO, "<=", yy), CMP(yy, "<", H), CMP(ZERO, "<=", xx), CMP(xx, "<", W))
     for nm, g, n in r:
         gg = real_guards(g)
-        nb = [c for c in gg if c.kind == "not" and c.args[0].kind == "and"]
+        is_src = lambda c: c.kind == "not" and c.args[0].kind == "truth" and c.args[0].args[0] == E_("M", y, x)
+        rest = [c for c in gg if not is_src(c)]
         det = "; ".join(map(repr, gg))[:300]
-        if nb and bounds_set(nb[0].args[0].flat_and(), yy, xx, [H], [W]) == {"y>=0", "x>=0", "y<H", "x<W"} and any(c.kind == "not" and c.args[0].kind == "truth" and c.args[0].args[0] == E_("M", y, x) for c in gg):
+        # whichever way the out-of-frame test is written (negated conjunction, disjunction of the four violations, i > N - 1 for i >= N): the exact negation, over the integers
+        if rest and any(is_src(c) for c in gg) and cond_equiv(rest[0] if len(rest) == 1 else AND(*rest), Cond("not", in_frame), limit=12, integer=True):
             ok = True
     ctx.ob(rule, f.key + ":raises", ok, where=f, node=r[0][2] if r else f.node, construct=det, message="a footprint pixel outside the array (the exact negation of the in-frame test) must raise exc.MaskException")
     ref = S.env.get(out[0])
@@ -144,7 +148,15 @@ def edge_test_rule(ctx, p, K):
         gg = real_guards(g)
         loops = [l for l in S.loops if l.node.lineno <= n.lineno <= l.node.end_lineno]
         # loop form
-        if len(loops) == 2 and all(l.kind == "range" and l.step == ONE for l in loops):
+        if len(loops) == 2 and all(l.kind == "range" and l.step == ONE for l in loops) \
+                and (loops[0].lo, loops[0].hi, loops[1].lo, loops[1].hi) == (Poly.fn("max", y - ONE, ZERO), Poly.fn("min", y + TWO, H), Poly.fn("max", x - ONE, ZERO), Poly.fn("min", x + TWO, W)):
+            # the 3 x 3 window clipped to the array by its loop bounds: every in-array neighbour is visited, nothing outside is read
+            yn, xn = S_(loops[0].var), S_(loops[1].var)
+            t = len(gg) == 1 and gg[0].kind == "truth" and gg[0].args[0] == E_("M", yn, xn)
+            det.append(f"clipped window loops; masked-test {t}")
+            if t:
+                offsets |= {(a, b_) for a in (-1, 0, 1) for b_ in (-1, 0, 1)}
+        elif len(loops) == 2 and all(l.kind == "range" and l.step == ONE for l in loops):
             dy, dx = S_(loops[0].var), S_(loops[1].var)
             yy, xx = y + dy, x + dx
             rng = [(l.lo.const_value(), l.hi.const_value()) for l in loops]
@@ -277,7 +289,11 @@ def border_rule(ctx, p, K):
                     if ck.endswith(":" + nm):
                         same_mask[nm] = ca
             okm = all(nm in same_mask and isinstance(same_mask[nm].get("mask_2d"), Ref) and same_mask[nm]["mask_2d"].name == "M" for nm in ("edge_1d_indexes_from", "native_index_for_slim_index_2d_from", "total_border_pixels_from"))
-            okv = isinstance(val, Ref) and re.match(r"^edge_1d_indexes_from#\d+\.\w+$", val.name) is not None and val.idx == (i,)
+            lp0 = st.loops[0]
+            direct = lp0.kind == "iter" and isinstance(getattr(lp0, "seq", None), Ref)   # `for edge_pixel in edge_pixels`: the element itself is the loop variable
+            if direct:
+                i = S_(lp0.var + "@")
+            okv = isinstance(val, Ref) and re.match(r"^edge_1d_indexes_from#\d+\.\w+$", val.name) is not None and val.idx == (i,) and (not direct or lp0.seq.name == val.name)
             okg = False
             if len(gs) == 1 and gs[0].kind == "truth" and isinstance(gs[0].args[0], Poly):
                 a = list(gs[0].args[0].atoms())
@@ -287,8 +303,8 @@ def border_rule(ctx, p, K):
             tb = same_mask.get("total_border_pixels_from", {})
             okt = isinstance(tb.get("edge_pixels"), Ref) and okv and tb["edge_pixels"].name == val.name and isinstance(tb.get("native_to_slim"), Ref) and tb["native_to_slim"].name.startswith("native_index_for_slim_index_2d_from#")
             ok = okm and okv and okg and okt and c is not None and st.idx == (S_(c + "~"),) and len(incs) == 1 and incs[0][0] == ONE \
-                and {k.key() for k in real_guards(incs[0][2])} == {k.key() for k in gs} and st.loops[0].lo == ZERO and st.loops[0].step == ONE \
-                and (st.loops[0].hi == Poly.fn("total_edge_pixels_from", S_("M")) or (okv and st.loops[0].hi == S_(val.name + ".shape[0]"))) and counter_init_zero(g, c, st.loops[0].node.lineno)
+                and {k.key() for k in real_guards(incs[0][2])} == {k.key() for k in gs} and (direct or (st.loops[0].lo == ZERO and st.loops[0].step == ONE \
+                and (st.loops[0].hi == Poly.fn("total_edge_pixels_from", S_("M")) or (okv and st.loops[0].hi == S_(val.name + ".shape[0]"))))) and counter_init_zero(g, c, st.loops[0].node.lineno)
             shp = getattr(G.env.get(out[0]), "shape", None)
             ok = ok and shp is not None and isinstance(shp[0], Poly) and "total_border_pixels_from" in repr(shp[0])
     ctx.ob(rule, g.key, ok, where=g, node=g.node, construct=det,
